@@ -1,12 +1,23 @@
 """C06 native oracle: meshes have value semantics -- copy, merge and transforms never alias.
 
-Every case is  (producer, check)  or an explicit op sequence:
-  * producer = a named member of a deterministic family of small meshes, one per way the library can make a mesh
-    (loaders, procedural generators, from_arrays, merge, copy, subdivision, boundary extraction, reorder, path export, Bezier);
-    a producer also names its *sources*: the meshes / caller arrays it was made from, which must never change afterwards.
-  * check = structure | copy | copy_connectivity | translate | rotate | scale | scale_xyz | normalize | translate_to_origin | flatten | edit
-  * sequence = random copy / merge / transform scripts over a pool of meshes, compared after every step with a numpy model
-    (failing sequences are shrunk to a minimal script before they are reported).
+Two kinds of cases:
+  * {"kind": "producer", "producer": <name>, "params": {...}, "failed": [<clauses>]}: a named member of a deterministic family of
+    small meshes, one per way the library can make a mesh (loaders, procedural generators, from_arrays, merge, copy, subdivision,
+    boundary extraction, reorder, path / tree export, sampling, Bezier, PointCloud.append).  A producer also names its *sources*:
+    the meshes / caller arrays it was made from, which must never change afterwards.  Every clause of CHECKS is run on a freshly
+    built mesh; the list of clauses that fail is part of the case descriptor (so a clause that starts failing on a producer that
+    is already in "known" gives a new case), "error" holds one message per failing clause.
+        structure            merge = disjoint union of the inputs with running vertex offsets, result type, inputs untouched
+        copy                 copy (all 4 option pairs) equals its source, shares no object / array, edits do not leak either way
+        copy_connectivity    copy(copy_connectivity=True) does not share the connectivity object          (3 producers)
+        translate rotate scale scale_xyz normalize translate_to_origin flatten
+                             exact map on every vertex (exactly once), element lists kept, sources untouched, caller's parameters
+                             untouched, inverse restores, and the reverse (transforming a source leaves the produced mesh alone);
+                             normalize / fit_into_unit_cube / translate_to_origin also check the documented box / barycentre
+        translate_by_own_vertex, scale_xyz_default_origin   parameter clauses that do not depend on the producer (2 producers)
+        edit                 direct coordinate / element edits on merge and copy results never leak (both directions)
+  * {"kind": "sequence", "base": [...], "ops": [...]}: random copy / merge / transform scripts over a pool of meshes, compared
+    after every step with a numpy model; failing sequences are shrunk to a minimal script before they are reported.
 All expected values are computed here with plain numpy from coordinate / index snapshots taken before the call.
 """
 import os, tempfile, shutil, random, json
@@ -397,6 +408,9 @@ def producers(seed, thorough):
     def ear():
         return dict(mesh=split_double_boundary_edges_triangles(EAR()), sources=[])
     add('subdiv_split_double_boundary', ear, source='EAR')
+    # the same refinements asked in one block on meshes that are not triangulated yet ("will triangulate the mesh first")
+    add('subdiv_loop1_quads_oneblock', subdiv(A_quads, 'loop_subdivision', True, 1), source='A_quads', op='loop_subdivision', n=1)
+    add('subdiv_tri6_mixed_oneblock', subdiv(MIXED, 'subdivide_triangles_6', True, 1), source='MIXED', op='subdivide_triangles_6', repeat=1)
 
     def volsub(op, arg):
         def build():
@@ -445,6 +459,35 @@ def producers(seed, thorough):
         return dict(mesh=M.processing.shortest_path(s, 0, [8, 2], export_path_mesh=True)[1], sources=[('mesh', s)])
     add('shortest_path_export', path_mesh, source='B_tris', start=0, targets=[8, 2])
 
+    def tree_polyline():
+        s = B_tris()
+        t = M.processing.trees.EdgeSpanningTree(s, 4)
+        t()
+        return dict(mesh=t.build_tree_as_polyline(), sources=[('mesh', s)])
+    add('edge_tree_as_polyline', tree_polyline, source='B_tris', root=4)
+
+    # a point cloud filled through its own API (PointCloud.append: "shortcut for self.vertices.append(x)")
+    def pc_append(twice):
+        def build():
+            vs = [fvec(0.5, 0.25, -1), fvec(2, 2, 2), fvec(-1, 3, 0.5)]
+            pc = M.mesh.PointCloud()
+            for v in (vs + [vs[0]] if twice else vs):
+                pc.append(v)
+            return dict(mesh=pc, sources=[] if twice else [('appended vector %d' % i, v) for i, v in enumerate(vs)])
+        return build
+    add('pointcloud_append', pc_append(False), points=[[0.5, 0.25, -1], [2, 2, 2], [-1, 3, 0.5]])
+    add('pointcloud_append_same_vector_twice', pc_append(True), points=[[0.5, 0.25, -1], [2, 2, 2], [-1, 3, 0.5]], note='vector 0 appended again as vertex 3')
+
+    def sampled(fn, *args):
+        def build():
+            np.random.seed(seed + 11)
+            g = B_tris()
+            a = [g if isinstance(x, str) else x for x in args]
+            return dict(mesh=fn(*a, return_point_cloud=True), sources=[('sampled mesh', g)] if any(isinstance(x, str) for x in args) else [])
+        return build
+    add('sample_sphere_points', sampled(M.sampling.sample_sphere, fvec(1, 2, 3), 0.5, 7), center=[1, 2, 3], radius=0.5, n_pts=7)
+    add('sample_surface_points', sampled(M.sampling.sample_surface, 'B', 9), mesh='B_tris', n_pts=9)
+
     if thorough:
         for k in range(6):
             n = int(rnd.randint(3, 9))
@@ -458,6 +501,7 @@ def producers(seed, thorough):
         add('torus_8x5', lambda: dict(mesh=P.torus(8, 5, 2., 0.5), sources=[]), major_segments=8, minor_segments=5)
         add('ring_7_open_cover3', lambda: dict(mesh=P.ring(7, 1.0, True, 3), sources=[]), N=7, defect=1.0, open=True, n_cover=3)
         add('subdiv_loop2_tris', subdiv(B_tris, 'loop_subdivision', True, 2), source='B_tris', op='loop_subdivision', n=2)
+        add('subdiv_tri6x2_tris', subdiv(B_tris, 'subdivide_triangles_6', True, 2), source='B_tris', op='subdivide_triangles_6', repeat=2)
         add('subdiv_3quads_then_loop', tri_then(lambda: subdiv(B_tris, 'subdivide_triangles_3quads', True)()['mesh'], 'loop_subdivision', 1),
             source='B_tris -> subdivide_triangles_3quads -> triangulate', op='loop_subdivision', n=1)
         add('boundary_of_volume_tetgrid2', bnd_volume(lambda: tetgrid(2)), source='tetgrid(2)')
@@ -586,15 +630,9 @@ def check_rotate(build):
                 return np.array(mat)
             return list(ang) if kind == 'euler list' else tuple(ang)
         held = None if orig is None or orig == 'vertex0' else fvec(*orig)
-        anchor = {}
-
-        def get_orig(m, P=None):
-            if orig == 'vertex0':
-                return m.vertices[0]
-            return held
 
         def apply(m, inv=False):
-            o = get_orig(m)
+            o = m.vertices[0] if orig == 'vertex0' else held
             if o is None:
                 T.rotate(m, arg(inv))
             else:
@@ -602,7 +640,6 @@ def check_rotate(build):
 
         def expect(P):
             o = np.zeros(3) if orig is None else (P[0].copy() if orig == 'vertex0' else np.array(orig))
-            anchor['o'] = o
             return o + (P - o) @ Rm.T
         label = 'rotate(%s %s, orig=%s)' % (kind, [round(a, 4) for a in ang], orig)
         e = transform_case(build, label, apply, expect, inverse=lambda m: apply(m, True))
@@ -910,7 +947,7 @@ def check_copy(build):
                 return '%s raised %s: %s' % (opts, type(e).__name__, e)
             if type(c) is not type(m):
                 return '%s returned a %s for a %s' % (opts, type(c).__name__, type(m).__name__)
-            if not np.array_equal(coords(c), P0) if len(P0) == len(c.vertices) else True:
+            if len(P0) != len(c.vertices) or not np.array_equal(coords(c), P0):
                 return '%s: coordinates of the copy differ from the source (%d vs %d vertices)' % (opts, len(c.vertices), len(P0))
             if elems(c) != E0:
                 return '%s: element lists of the copy differ from the source' % opts
@@ -964,7 +1001,7 @@ def check_copy(build):
                 if hasattr(first, 'face_corners') and len(first.face_corners):
                     first.face_corners._elem[0] = 777
                     first.face_corners.append(0, 0)
-                if ca or who == 'source':
+                if True:
                     for cn in CONTAINERS:
                         if hasattr(first, cn):
                             cont = getattr(first, cn)
@@ -982,7 +1019,7 @@ def check_copy(build):
                                 except Exception:
                                     pass
                 now = (coords(second), elems(second), corners(second), {cn: attr_values(getattr(second, cn), len(getattr(second, cn))) for cn in CONTAINERS if hasattr(second, cn)})
-                if not np.array_equal(now[0], B[0]) if now[0].shape == B[0].shape else True:
+                if now[0].shape != B[0].shape or not np.array_equal(now[0], B[0]):
                     return '%s: editing the %s changed the coordinates / vertex count of the other mesh' % (opts, who)
                 if now[1] != B[1]:
                     return '%s: editing the %s changed the element lists of the other mesh' % (opts, who)
@@ -1235,10 +1272,9 @@ def seq_drop_mesh(base, ops, mid):
     return new_base, new_ops
 
 
-def seq_bypass_copy(base, ops, k):
-    """remove the copy op number k and let every later reference to the copy point at the copied mesh instead"""
+def seq_bypass(base, ops, k, src):
+    """remove the creating op number k (copy / merge) and let every later reference to its product point at its input `src` instead"""
     cid = len(base) + len([o for o in ops[:k] if o[0] in ('copy', 'merge')])
-    src = ops[k][1]
     f = lambda r: src if r == cid else (r - 1 if r > cid else r)
     out = [list(o) for o in ops[:k]]
     for op in ops[k + 1:]:
@@ -1252,10 +1288,13 @@ def seq_shrink(base, ops):
     while changed:
         changed = False
         for k in range(len(ops) - 1, -1, -1):
-            if ops[k][0] == 'copy':
-                cand = seq_bypass_copy(base, ops, k)
-                if seq_valid(base, cand) and run_sequence(base, cand):
-                    ops, changed = cand, True
+            if ops[k][0] in ('copy', 'merge'):
+                for src in ([ops[k][1]] if ops[k][0] == 'copy' else sorted(set(ops[k][1]))):
+                    cand = seq_bypass(base, ops, k, src)
+                    if seq_valid(base, cand) and run_sequence(base, cand):
+                        ops, changed = cand, True
+                        break
+                if changed:
                     break
         # drop non-creating ops
         for k in range(len(ops) - 1, -1, -1):
@@ -1366,12 +1405,22 @@ def main():
                 out['error'] = err
             respond(failing=out, cases=1)
 
-        focus = None
+        fam = producers(seed, thorough)
+        other = {name: params for name, params, _ in producers(seed + 1, thorough)}
+        seeded = {name for name, params, _ in fam if json.dumps(params, default=str) != json.dumps(other.get(name), default=str)}
+        focus, only = None, None
         if mode == 'search' and req.get('function'):
             last = str(req['function']).split('.')[-1]
             alias = {'fit_into_unit_cube': 'normalize', 'merge': 'structure'}
             if alias.get(last, last) in CHECKS:
                 focus = alias.get(last, last)
+            else:
+                words = {'extract_boundary_of_surface': 'boundary_of_surface', 'extract_boundary_of_volume': 'boundary_of_volume', 'load': 'load_', 'build_path': 'shortest_path',
+                         'shortest_path': 'shortest_path', 'loop_subdivision': 'subdiv_loop', 'SurfaceSubdivision': 'subdiv_', 'VolumeSubdivision': 'volsubdiv_',
+                         'build_tree_as_polyline': 'edge_tree', '_prepare_vertices': 'from_arrays'}
+                key = words.get(last, last)
+                hits = [name for name, _, _ in fam if key in name]
+                only = set(hits) if hits else None
 
         def report(case, err):
             case = dict(case)
@@ -1384,16 +1433,21 @@ def main():
             respond(failing=case, cases=n, known_hit=known_hit)
 
         checks = CHECKS if not focus else [c for c in CHECKS if c == focus or c.startswith(focus + '_') or (focus == 'structure' and c == 'edit')]
-        for name, params, build in producers(seed, thorough):
+        for name, params, build in fam:
+            if only is not None and name not in only:
+                continue
             failed, err, k = run_producer(name, build, checks)
             n += k
             if failed:
                 # one case per producer; the list of failing clauses belongs to the descriptor, so a NEW failing clause on a
-                # producer that is already known is a new case
-                report({'kind': 'producer', 'producer': name, 'params': params, 'seed': seed, 'failed': failed}, err)
+                # producer that is already known is a new case.  The seed is recorded only where the input depends on it.
+                case = {'kind': 'producer', 'producer': name, 'params': params, 'failed': failed}
+                if name in seeded:
+                    case['seed'] = seed
+                report(case, err)
         # sequences
         rnd = random.Random(seed * 7919 + 13)
-        count = 400 if thorough else 60
+        count = 0 if only is not None else 400 if thorough else 60
         for _ in range(count):
             if budget.over():
                 break
